@@ -39,6 +39,8 @@ EventuallyComplete == Offered => <>Complete
 NoDeadEnd == ~panic
 N1x3 == (1 :> 1) @@ (2 :> 1) @@ (3 :> 1)
 N21 == (1 :> 2) @@ (2 :> 1)
+N1x2 == (1 :> 1) @@ (2 :> 1)
 HasA == [k \in Peers |-> IF k = "a" THEN {1, 2, 3} ELSE {1}]
+HasQ == [k \in Peers |-> IF k = "a" THEN {1, 2} ELSE {1}]
 HasB == [k \in Peers |-> IF k = "a" THEN {1} ELSE IF k = "b" THEN {1, 2} ELSE {3}]
 ====
